@@ -181,11 +181,11 @@ def preView (rec : List Json → TokCtx → Nat → Bool) (tyJ attrsJ rawJ chJ t
      else if ty == "heading" then
        isBlockCtx ctx && optStr textJ && !optHas rawJ && !optHas chJ &&
          (match attrs.getInt? "level" with | some n => decide (1 ≤ n) && decide (n ≤ 6) | none => false)
-     else if ty == "block_code" || ty == "block_html" then
+     else if ty == "block_code" || ty == "block_html" || ty == "block_math" then
        isBlockCtx ctx && optStr rawJ && !optHas textJ && !optHas chJ
      else if ty == "thematic_break" || ty == "blank_line" then
        isBlockCtx ctx && !optHas rawJ && !optHas textJ && !optHas chJ
-     else if ty == "block_quote" then
+     else if ty == "block_quote" || ty == "block_spoiler" then
        isBlockCtx ctx && decide (depth + 1 ≤ mx) && optArr chJ && !optHas rawJ && !optHas textJ &&
          rec (optList chJ) .block (depth + 1)
      else if ty == "list" then
